@@ -165,8 +165,8 @@ def check_sentry(meta, out, ids):
         v.append(("sentry:fingerprint", "fingerprint is %s for level %s category %s message %s" % (short(fp, 200), LEVEL[meta["type"]], short(cat), short(meta["message"], 60))))
     extra = obj.get("extra") if isinstance(obj.get("extra"), dict) else {}
     for name, e in meta["attrs"].items():
-        if name in EXTRA_BUILTIN:
-            continue                                  # collides with a built-in extra key; the statement is silent
+        # (a custom attribute named line / file / thread_id shares its name with a built-in entry of extra: the statement asks for every
+        #  custom attribute with its value intact, so the attribute is the one that must be there)
         places = []
         if name in extra:
             places.append(("extra", extra[name]))
